@@ -364,7 +364,9 @@ def run(ctx):
             reported_rawdiff.append(1)
             ctx.reject('C35 reported_characters_disagree (get_chars() bytes vs unicode: [row, col, byte, unicode]) %s at %r adapter=%s mode=%s vpage=%s apage=%s' % (
                 e['rawdiff'][:4], e['stmt'][:80], e['adapter'], e['mode'], e['vpage'], e['apage']),
-                key={'clause': 'reported_characters_disagree', 'text_mode': e['text']}, data={'stmt': e['stmt'], 'rawdiff': e['rawdiff']})
+                key={'clause': 'reported_characters_disagree', 'text_mode': e['text']},
+                data={'stmt': e['stmt'], 'rawdiff': e['rawdiff'], 'adapter': e['adapter'],
+                      'history': [x['stmt'][:160] for x in events[max(0, events.index(e) - 80):events.index(e) + 1]]})
         if e['kind'] == 'init':
             del reported_rawdiff[:]
     ctx.cov['signals'] = stats
